@@ -327,6 +327,33 @@ func (a *Agent) handleICMPOpenErr(peerID identity.AgentID, frame *protocol.Frame
 
 // handleICMPEcho processes an ICMP_ECHO frame.
 func (a *Agent) handleICMPEcho(peerID identity.AgentID, frame *protocol.Frame) {
+	// Relay entries are keyed by (peer, stream ID) and are consulted first:
+	// the local endpoints below are keyed by the bare stream ID, which every
+	// neighbour numbers independently.
+	relayUp, relayDown := a.icmpRelay.LookupBoth(frame.StreamID, peerID)
+
+	if relayUp != nil && peerID == relayUp.UpstreamPeer {
+		// Forward downstream
+		fwdFrame := &protocol.Frame{
+			Type:     protocol.FrameICMPEcho,
+			StreamID: relayUp.DownstreamID,
+			Payload:  frame.Payload,
+		}
+		a.peerMgr.SendToPeer(relayUp.DownstreamPeer, fwdFrame)
+		return
+	}
+
+	if relayDown != nil && peerID == relayDown.DownstreamPeer {
+		// Forward upstream
+		fwdFrame := &protocol.Frame{
+			Type:     protocol.FrameICMPEcho,
+			StreamID: relayDown.UpstreamID,
+			Payload:  frame.Payload,
+		}
+		a.peerMgr.SendToPeer(relayDown.UpstreamPeer, fwdFrame)
+		return
+	}
+
 	// Check if this is for our ICMP handler (exit node receiving from mesh)
 	if a.icmpHandler != nil {
 		if session := a.icmpHandler.GetSession(frame.StreamID); session != nil {
@@ -430,36 +457,32 @@ func (a *Agent) handleICMPEcho(peerID identity.AgentID, frame *protocol.Frame) {
 		}
 		return
 	}
-
-	// Check if this is a relay. Relay entries are immutable once inserted,
-	// so reading entry fields after LookupBoth returns is safe even though
-	// the entry could be removed concurrently.
-	relayUp, relayDown := a.icmpRelay.LookupBoth(frame.StreamID, peerID)
-
-	if relayUp != nil && peerID == relayUp.UpstreamPeer {
-		// Forward downstream
-		fwdFrame := &protocol.Frame{
-			Type:     protocol.FrameICMPEcho,
-			StreamID: relayUp.DownstreamID,
-			Payload:  frame.Payload,
-		}
-		a.peerMgr.SendToPeer(relayUp.DownstreamPeer, fwdFrame)
-		return
-	}
-
-	if relayDown != nil && peerID == relayDown.DownstreamPeer {
-		// Forward upstream
-		fwdFrame := &protocol.Frame{
-			Type:     protocol.FrameICMPEcho,
-			StreamID: relayDown.UpstreamID,
-			Payload:  frame.Payload,
-		}
-		a.peerMgr.SendToPeer(relayDown.UpstreamPeer, fwdFrame)
-	}
 }
 
 // handleICMPClose processes an ICMP_CLOSE frame.
 func (a *Agent) handleICMPClose(peerID identity.AgentID, frame *protocol.Frame) {
+	// Check if this is a relay first (keyed by (peer, stream ID); the local
+	// endpoints below are keyed by the bare stream ID) - PopMatchingPeer atomically looks up,
+	// peer-disambiguates direction, and removes the entry under one Lock.
+	if entry, fromUpstream := a.icmpRelay.PopMatchingPeer(frame.StreamID, peerID); entry != nil {
+		var dstPeer identity.AgentID
+		var dstID uint64
+		if fromUpstream {
+			dstPeer = entry.DownstreamPeer
+			dstID = entry.DownstreamID
+		} else {
+			dstPeer = entry.UpstreamPeer
+			dstID = entry.UpstreamID
+		}
+		fwdFrame := &protocol.Frame{
+			Type:     protocol.FrameICMPClose,
+			StreamID: dstID,
+			Payload:  frame.Payload,
+		}
+		a.peerMgr.SendToPeer(dstPeer, fwdFrame)
+		return
+	}
+
 	// Check if this is for our ICMP handler (exit node)
 	if a.icmpHandler != nil {
 		a.icmpHandler.HandleICMPClose(peerID, frame.StreamID)
@@ -486,26 +509,6 @@ func (a *Agent) handleICMPClose(peerID identity.AgentID, frame *protocol.Frame) 
 
 	if wsSession != nil {
 		wsSession.close()
-	}
-
-	// Check if this is a relay - PopMatchingPeer atomically looks up,
-	// peer-disambiguates direction, and removes the entry under one Lock.
-	if entry, fromUpstream := a.icmpRelay.PopMatchingPeer(frame.StreamID, peerID); entry != nil {
-		var dstPeer identity.AgentID
-		var dstID uint64
-		if fromUpstream {
-			dstPeer = entry.DownstreamPeer
-			dstID = entry.DownstreamID
-		} else {
-			dstPeer = entry.UpstreamPeer
-			dstID = entry.UpstreamID
-		}
-		fwdFrame := &protocol.Frame{
-			Type:     protocol.FrameICMPClose,
-			StreamID: dstID,
-			Payload:  frame.Payload,
-		}
-		a.peerMgr.SendToPeer(dstPeer, fwdFrame)
 	}
 }
 
